@@ -37,7 +37,10 @@ func TestMain(m *testing.M) {
 	stats.Describe("exploration",
 		"A: the honest matrix (key type of each side x role x expected-peer setting x prologue pairing x {noise,tls}) is enumerated; "+
 			"B/E: one man-in-the-middle edit per case (flip byte i of handshake frame m -- all positions enumerated --, truncate, extend, drop, "+
-			"duplicate, swap with a concurrent session, replay from an earlier session) between two honest endpoints over in-memory pipes; "+
+			"duplicate, swap with a concurrent session, replay from an earlier session, INSERT 1-3 frames of the attacker's own in front of handshake frame m or behind the "+
+			"last one -- every position of both directions enumerated x payload length 0 (Noise: the bytes 00 00; TLS: a header with length 0), 1, 2, short, the displaced frame's "+
+			"length -1/+0/+1, the framing's maximum x fill zero / constant / copy of the displaced frame x for TLS record type 20/21/22/23/unknown/same as the next record; "+
+			"labels ins-len:*, ins-empty-frame@<position>, ins-type:*) between two honest endpoints over in-memory pipes; "+
 			"C: an active attacker speaking Noise XX through flynn/noise sends substituted payloads; D: forged certificates (libp2p extension "+
 			"mutated) go into PubKeyFromCertChain and through full TLS 1.3 handshakes against a plain crypto/tls attacker; F: a real swarm dials P "+
 			"and the transport answers as Q; F/QUIC: the QUIC transport's own Dial for P over simulated UDP in each of its roles (plain, simultaneous-connect "+
@@ -76,6 +79,7 @@ func TestMain(m *testing.M) {
 		"TLS record-header bytes of plaintext records and the ChangeCipherSpec compatibility record are unauthenticated by TLS 1.3 itself: edits there are judged by the identity oracle only",
 		"bytes that arrive after a side's last handshake frame (duplicate / unframed extension of that frame) are post-handshake data: judged by the identity oracle plus 'no garbage delivered'",
 		"a stalled handshake (virtual 10 s deadline) counts as a rejection",
+		"inserted TLS records of type ChangeCipherSpec or alert are outside the TLS 1.3 handshake transcript (crypto/tls skips a well-formed CCS during the handshake and a warning alert before the version is negotiated): judged by the identity oracle only; every other inserted frame in front of a handshake frame is extended handshake data whose receiver must not complete",
 		"QUIC is exercised at transport level for the dial-identity clause only (no wire edits); WebTransport / WebRTC reuse the same two mechanisms and are not exercised here",
 		"TLS 1.3 encrypts certificates and Noise encrypts payloads: the attacker observes a library peer's material by talking to that same transport object under its own identity (a libp2p TLS transport presents one certificate to every peer); a spec-level peer's material is what the harness made it send",
 	)
